@@ -70,8 +70,11 @@ fn histories(max: usize) -> Vec<Vec<E>> {
     out
 }
 
-fn scenario(h: &[E]) -> Scenario {
-    let mut s = Scenario::new(&h.iter().map(|e| format!("{e:?}")).collect::<Vec<_>>().join(","));
+fn scenario(h: &[E], late: bool) -> Scenario {
+    let mut s = Scenario::new(&format!("{}{}", h.iter().map(|e| format!("{e:?}")).collect::<Vec<_>>().join(","), if late { ":last-arrives-late" } else { "" }));
+    // the last event's message is not queued with the others: its arrival is a scheduler event, so it can
+    // land while debounced tasks of the earlier events are waiting, running or publishing
+    s.late_messages = late as usize;
     s.disk = vec![("a.lua".into(), DISK_A.into()), ("b.lua".into(), "local b = 1\nreturn b\n".into())];
     s.pull_diagnostics = false;
     let mut version = 1;
@@ -144,7 +147,10 @@ fn judge_for(h: Vec<E>) -> impl Fn(&EndState) -> Vec<(String, String)> + Sync {
 
 pub fn run(args: &Args) -> ! {
     if args.replay.is_some() {
-        let all = histories(4).into_iter().map(|h| (scenario(&h), Box::new(judge_for(h)) as Box<dyn Fn(&EndState) -> Vec<(String, String)> + Sync>)).collect();
+        let all = histories(4)
+            .into_iter()
+            .flat_map(|h| [false, true].map(|late| (scenario(&h, late), Box::new(judge_for(h.clone())) as Box<dyn Fn(&EndState) -> Vec<(String, String)> + Sync>)))
+            .collect();
         replay_scenario(args, "C30", all);
     }
     let dl = args.deadline();
@@ -156,19 +162,24 @@ pub fn run(args: &Args) -> ! {
     let hs = histories(max);
     let mut run_n = 0;
     let mut complete = true;
-    for h in &hs {
-        if dl.expired() {
-            complete = false;
-            break;
+    'h: for h in &hs {
+        for late in [false, true] {
+            if late && h.len() < 2 {
+                continue;
+            }
+            if dl.expired() {
+                complete = false;
+                break 'h;
+            }
+            run_n += 1;
+            let scn = scenario(h, late);
+            let judge = judge_for(h.clone());
+            let st = explore_scenario(args, &dl, &acc, &scn, bound, args.tier.pick(20_000, 400_000), &judge, "converged");
+            tot.add(&st);
         }
-        run_n += 1;
-        let scn = scenario(h);
-        let judge = judge_for(h.clone());
-        let st = explore_scenario(args, &dl, &acc, &scn, bound, args.tier.pick(20_000, 400_000), &judge, "converged");
-        tot.add(&st);
     }
     rep.rule = format!(
-        "every history of ≤{max} open/change/close/delete events over an on-disk and a not-on-disk document ({} histories, {run_n} run) with a push-diagnostics client, fed to the real server loop; debounce timers are scheduler events; every schedule with ≤{bound} preemptions modulo happens-before state matching; oracle after all timers fired: last publishDiagnostics of each open workspace file == fresh diagnosis of the final state; removed file ⇒ last publication empty. non-trivial = more than one decision",
+        "every history of ≤{max} open/change/close/delete events over an on-disk and a not-on-disk document ({} histories; each also with its last event arriving late, as a scheduler event; {run_n} scenarios run) with a push-diagnostics client, fed to the real server loop; debounce timers are scheduler events; every schedule with ≤{bound} preemptions modulo happens-before state matching; oracle after all timers fired: last publishDiagnostics of each open workspace file == fresh diagnosis of the final state; removed file ⇒ last publication empty. non-trivial = more than one decision",
         hs.len()
     );
     rep.bounds = json!({"max_events": max, "preemption_bound": bound, "histories_total": hs.len(), "histories_run": run_n, "wall_cap_hit": dl.was_hit()});
